@@ -89,6 +89,9 @@ class FileHeaderConfig:
         ]
     )
 
+    # Whether the linter runs at all
+    enabled: bool = True
+
     # Enforce atemporal language checking
     enforce_atemporal: bool = True
 
@@ -120,6 +123,7 @@ class FileHeaderConfig:
                 required_fields_bash=required_fields,
                 required_fields_markdown=required_fields,
                 required_fields_css=required_fields,
+                enabled=config_dict.get("enabled", True),
                 enforce_atemporal=config_dict.get("enforce_atemporal", True),
                 ignore=config_dict.get("ignore", defaults.ignore),
             )
@@ -135,6 +139,7 @@ class FileHeaderConfig:
                 "markdown", defaults.required_fields_markdown
             ),
             required_fields_css=required_fields.get("css", defaults.required_fields_css),
+            enabled=config_dict.get("enabled", True),
             enforce_atemporal=config_dict.get("enforce_atemporal", True),
             ignore=config_dict.get("ignore", defaults.ignore),
         )
